@@ -1,12 +1,19 @@
 package main
 
-import "fmt"
+import (
+	"fmt"
+	"strings"
+)
 
 // C05: data directives emit exactly their operand values.
 
-var c05Strings = []string{"", "a", "hello", "a;b", "x#y", "p,q", " lead", "trail ", "it's", "semi; colon, comma # hash", "[BX]", "MOV AX,1", "0x41", "ロード", "é", "日本語 text; ok", "€"}
+var c05Strings = []string{"", "a", "hello", "a;b", "x#y", "p,q", " lead", "trail ", "it's", "semi; colon, comma # hash", "[BX]", "MOV AX,1", "0x41", "ロード", "é", "日本語 text; ok", "€",
+	"'quoted'", "''", "'", "'a", "a'", "a'b'c", "'x';'y'"}
 
 func strItem(s string) DItem { return DItem{Kind: "str", Str: s, Text: goQuoteForNask(s)} }
+
+// the same bytes between apostrophes (for strings that contain none)
+func strItemSingle(s string) DItem { return DItem{Kind: "str", Str: s, Text: "'" + s + "'"} }
 
 // NASK strings have no escapes we rely on: only plain characters are used, except a literal tab
 func goQuoteForNask(s string) string {
@@ -52,7 +59,12 @@ func c05Data(r *Rand, labels []string, allowDollar bool) PStmt {
 			e, v := genConstExpr(r, r.Range(1, 3), nil, nil)
 			s.Items = append(s.Items, DItem{Kind: "num", Num: v, Text: e.Render(r.Intn(3))})
 		case x < 10 && w == 1:
-			s.Items = append(s.Items, strItem(Pick(r, c05Strings)))
+			str := Pick(r, c05Strings)
+			if !strings.ContainsAny(str, "'\t") && r.Chance(1, 40) {
+				s.Items = append(s.Items, strItemSingle(str)) // the other delimiter (gosk refuses it: finding F501)
+			} else {
+				s.Items = append(s.Items, strItem(str))
+			}
 		case x == 10 && len(labels) > 0:
 			l := Pick(r, labels)
 			s.Items = append(s.Items, DItem{Kind: "label", Label: l, Text: l})
